@@ -210,7 +210,8 @@ spec("user_only",
 #     CLOSER to the internet reachable
 spec("ring",
      subnets=[1, 1, 1, 1, 1, 1], topology=topo(7, [(0, 4), (1, 2), (2, 3), (3, 4), (4, 5), (5, 6), (6, 1)]),
-     os=["linux"], services=["ssh"], processes=["p"],
+     # "bsd": an OS no host runs; step limit of exactly 1 (every step after the first reports the limit)
+     os=["linux", "bsd"], services=["ssh"], processes=["p"],
      hosts=dict(((s, 0), H("linux", ["ssh"], [])) for s in range(1, 7)),
      exploits={"e_ssh": E("ssh", None, 1.0, 1, R)},
      privescs={"pe_p": P("p", None, 1.0, 1, R)},
@@ -218,7 +219,7 @@ spec("ring",
              + [((a, b), ["ssh"]) for a, b in [(1, 2), (2, 3), (3, 4), (4, 5), (5, 6), (6, 1)]]
              + [((b, a), ["ssh"]) for a, b in [(1, 2), (2, 3), (3, 4), (4, 5), (5, 6), (6, 1)]]),
      # 2.1 + 0.1: the float32 sum (2.1999998) is below the sum of the numbers
-     sens={(1, 0): 2.1, (2, 0): 0.1})
+     sens={(1, 0): 2.1, (2, 0): 0.1}, step_limit=1)
 
 # --- 68 hosts (tensor rows beyond 64, more than 1000 cells), two gateways at opposite ends of the row order;
 #     recorded goal-seeking sweeps only
